@@ -1,6 +1,7 @@
 import SfntV.Prelude.Bytes
 import SfntV.Model.FontMerge
 import SfntV.Model.FontFile
+import SfntV.Model.FontFileCff
 
 /-! Line protocol for the `font.` area (C01).  See harness/area_font.go for the field list. -/
 namespace SfntV.Drive.Font
@@ -390,6 +391,41 @@ def parseFileFont (fs : List (String × String)) : Option (FontFile.FileFont × 
           cmap := cm, glyphNames := names, gdef := ← ob "gdefb", gsub := ← ob "gsubb", gpos := ← ob "gposb" },
         (rise, run))
 
+def parseRect (s : String) : Option Metrics.Rect :=
+  match s.splitOn "." with
+  | [a, b, c, d] => do
+    let llx ← a.toInt?
+    let lly ← b.toInt?
+    let urx ← c.toInt?
+    let ury ← d.toInt?
+    pure ⟨llx, lly, urx, ury⟩
+  | _ => none
+
+/-- a font.file line of an OpenType/CFF font -/
+def parseCffFileFont (fs : List (String × String)) : Option (FontFile.CffFileFont × (Int × Int)) := do
+  let M ← parseMeta fs
+  let cffb ← (getField fs "cffb").bind fromHex
+  let ext ← getField fs "ext"
+  let rects ← if ext.isEmpty then some [] else (ext.splitOn ",").mapM parseRect
+  let rr ← getField fs "rr"
+  let (rise, run) ← match rr.splitOn ":" with
+    | [a, b] => do
+      let x ← a.toInt?
+      let y ← b.toInt?
+      pure (x, y)
+    | _ => none
+  let cmt ← getField fs "cmt"
+  let cm ← if cmt == "-" then some none else
+    ((if cmt.isEmpty then some [] else (cmt.splitOn ",").mapM parseCmapEntry).map some)
+  let ob (k : String) : Option (Option Bytes) :=
+    match getField fs k with
+    | none => some none
+    | some v => if v == "-" then some none else (fromHex v).map some
+  let payload : FontFile.CffPayload :=
+    { info := deriveCff M, widths := M.outline.widthList, extents := rects, token := M.outline.glyphs }
+  pure ({ scalars := M, cffBytes := cffb, payload := payload, cmap := cm,
+          gdef := ← ob "gdefb", gsub := ← ob "gsubb", gpos := ← ob "gposb" }, (rise, run))
+
 def prefixes : List String := ["font."]
 
 def handle (op : String) (fs : List (String × String)) : String :=
@@ -422,6 +458,28 @@ def handle (op : String) (fs : List (String × String)) : String :=
       | none => "bad-case"
       | some (.error e) => if (getField fs "sc").isSome then e else "same"
       | some (.ok _) => "same"
+  else if op == "font.file" && (getField fs "cffb").isSome then
+    match parseCffFileFont fs with
+    | none => "bad-case"
+    | some (F, rr) =>
+      match FontFile.writeFileCff { env := env, riseRun := fun _ => rr } F with
+      | .ok b => "ok:" ++ toHex b
+      | .err e => "err:" ++ e
+      | .panic s => "panic:" ++ s
+  else if op == "font.filert" && (getField fs "cffb").isSome then
+    match parseCffFileFont fs with
+    | none => "bad-case"
+    | some (F, rr) =>
+      let F := { F with payload := { F.payload with info := deriveCff (FontFile.metaOfCff F) } }
+      match FontFile.writeFileCff { env := env, riseRun := fun _ => rr } F with
+      | .ok b =>
+        match FontFile.readFileCff idLayout (fun _ => .ok F.payload) (fun _ _ => 0) b with
+        | .ok r => if r == FontFile.nfFileCff F then "same" else
+            "differ:" ++ ",".intercalate (diffKeys (metaFields r.font) (metaFields (FontFile.nfFileCff F).font))
+        | .err e => "read-err:" ++ e
+        | .panic s => "read-panic:" ++ s
+      | .err e => "err:" ++ e
+      | .panic s => "panic:" ++ s
   else if op == "font.file" then
     match parseFileFont fs with
     | none => "bad-case"
